@@ -69,8 +69,10 @@ def reader(rec, op, key, fn):
         return None
 
 
-def backend_same(rec, rng, xr, engine, path, out, p=0.3, **kw):
-    """The xarray backend entry point of a format (`xr.open_dataset(file, engine=...)`) returns what the reader returns."""
+def backend_same(rec, rng, xr, engine, path, out, p=0.3, ignore=(), **kw):
+    """The xarray backend entry point of a format (`xr.open_dataset(file, engine=...)`) returns what the reader returns.
+    `ignore`: variables the file does not encode (a SWAN file without TIME is stamped with the wall clock of the read, so
+    two reads a minute apart legitimately differ there)."""
     if out is None or rng.random() > p:
         return
     key = "engine=%s%s" % (engine, "".join("|%s" % k for k in sorted(kw)))
@@ -82,7 +84,7 @@ def backend_same(rec, rng, xr, engine, path, out, p=0.3, **kw):
     try:
         same = set(ds2.variables) == set(out.variables) and all(
             tuple(ds2[v].dims) == tuple(out[v].dims) and np.array_equal(np.asarray(ds2[v].values), np.asarray(out[v].values), equal_nan=ds2[v].dtype.kind == "f")
-            for v in out.variables)
+            for v in out.variables if v not in ignore)
     except Exception as e:
         same = False
     (rec.ok("backend_entrypoint", key) if same else
@@ -323,7 +325,7 @@ def do_swan(rec, rng, ws, xr, d, kind):
     paths, t = F.swan(rng, d, opts)
     key = "swan|" + "|".join("%s=%s" % kv for kv in sorted(opts.items()))
     out = reader(rec, "swan", key, lambda: ws.read_swan(paths[0], as_site=True))
-    backend_same(rec, rng, xr, "swan", paths[0], out, as_site=True)
+    backend_same(rec, rng, xr, "swan", paths[0], out, ignore=() if opts["time"] else ("time",), as_site=True)
     if out is None:
         return
     if opts["time"] and not times_ok(rec, "swan", key, out, t["time"]):
